@@ -720,8 +720,24 @@ pub fn check(id: &str, tier: Tier, seed: u64) -> i32 {
         "known_findings_reproduced": known_hits.iter().map(|(k, v)| json!({"sig": k, "hits": v.1})).collect::<Vec<_>>(),
     });
     let _ = std::fs::create_dir_all(format!("{}/evidence", root));
+    // VERIF_EVIDENCE_SUFFIX: a secondary run (the plain-release profile of the thorough tier)
+    // writes evidence/<ID><suffix>.json; VERIF_MERGE_EVIDENCE names such a file to fold into this run's
+    let suffix = std::env::var("VERIF_EVIDENCE_SUFFIX").unwrap_or_default();
+    let mut ev = ev;
+    if let Ok(other) = std::env::var("VERIF_MERGE_EVIDENCE") {
+        if let Some(o) = std::fs::read_to_string(&other).ok().and_then(|t| serde_json::from_str::<Value>(&t).ok()) {
+            ev["coverage"]["plain_release_profile_run"] = json!({
+                "evaluations": o["coverage"]["evaluations"],
+                "distinct_nontrivial": o["coverage"]["distinct_nontrivial"],
+                "violations": o["violations"],
+                "wall_s": o["wall_s"],
+                "note": "same check, harness and SUT built with overflow-checks and debug-assertions off (how the REPL and wasm front ends ship)",
+            });
+            let _ = std::fs::remove_file(&other);
+        }
+    }
     let _ = std::fs::write(
-        format!("{}/evidence/{}.json", root, id),
+        format!("{}/evidence/{}{}.json", root, id, suffix),
         serde_json::to_string_pretty(&ev).unwrap(),
     );
 
